@@ -148,19 +148,27 @@ RECURSIVE Sorted(_)
 Sorted(S) == IF S = {} THEN <<>>
              ELSE LET m == CHOOSE x \in S : \A y \in S : x <= y IN <<m>> \o Sorted(S \ {m})
 
-(* the solutions as a sequence of tuples in ascending lexicographic order (the order of     *)
-(* label/1: leftmost variable first, values ascending), built by the same nesting           *)
-RECURSIVE LexFrom(_, _, _, _, _)
-LexFrom(sys, nv, sdom, i, pre) ==
-  IF i > nv
-    THEN (IF \A j \in 1..Len(sys) : Holds(sys[j], pre) THEN <<pre>> ELSE <<>>)
-    ELSE LET vals == sdom[i]
-             RECURSIVE Over(_)
-             Over(p) == IF p > Len(vals) THEN <<>>
-                        ELSE LexFrom(sys, nv, sdom, i + 1, Append(pre, vals[p])) \o Over(p + 1)
-         IN Over(1)
+(* all assignments within the domains as a sequence of tuples in ascending lexicographic     *)
+(* order (leftmost variable most significant, values ascending): the order in which label/1   *)
+(* (leftmost, up) visits them; sdom[i] is the sorted sequence of the values of dom[i]         *)
+RECURSIVE LexAll(_, _, _, _)
+LexAll(nv, sdom, i, pre) ==
+  IF i > nv THEN <<pre>>
+  ELSE LET vals == sdom[i]
+           RECURSIVE Over(_)
+           Over(p) == IF p > Len(vals) THEN <<>>
+                      ELSE LexAll(nv, sdom, i + 1, Append(pre, vals[p])) \o Over(p + 1)
+       IN Over(1)
 
-LexSolutions(sys, nv, dom) == LexFrom(sys, nv, [i \in 1..nv |-> Sorted(dom[i])], 1, <<>>)
+LexAssignments(nv, dom) == LexAll(nv, [i \in 1..nv |-> Sorted(dom[i])], 1, <<>>)
+
+(* the solutions in that order *)
+LexSolutions(sys, nv, dom) ==
+  LET Ok(a) == \A j \in 1..Len(sys) : Holds(sys[j], a)
+  IN SelectSeq(LexAssignments(nv, dom), Ok)
+
+(* for one constraint: which of the assignments (in that order) satisfy it, as 0/1 *)
+HoldsMask(c, as) == [i \in 1..Len(as) |-> IF Holds(c, as[i]) THEN 1 ELSE 0]
 
 (* does some assignment in the domains meet a partial operation outside its domain? *)
 RECURSIVE ExprDefined(_, _), AllDefined(_, _)
